@@ -302,3 +302,65 @@ def transforms_roundtrips(tier, seed):
     r = common.result(cases, cases, fails, "6 curve sets x with/without arcs x 4 transforms x 5 pre-read sets; DXF / SVG / dict round trips", exhaustive=True)
     r["failures"] = fails
     return r
+
+
+@bounded("C14", name="real-code:arc-independent-of-its-middle-control-point", note="arcs of span 10..350 degrees x middle control point at 5..95 % of the arc x both directions x centres / radii: span, length, discretisation and the region closed by the chord are those of the circle segment, wherever the middle point sits")
+def arc_middle_point(tier, seed):
+    import warnings
+
+    import trimesh
+    from trimesh.path import arc as arcmod
+    from trimesh.path.entities import Arc, Line
+
+    cells = {}
+    cases = 0
+
+    def fail(key, detail=""):
+        c = cells.setdefault(key, {"what": key, "cell": key, "detail": str(detail)[:300], "count": 0})
+        c["count"] += 1
+
+    spans = [10, 45, 90, 135, 170, 179, 181, 190, 225, 270, 300, 350] if tier == "quick" else list(range(5, 360, 5))
+    fracs = [0.05, 0.2, 0.5, 0.8, 0.95] if tier == "quick" else [0.02, 0.05, 0.1, 0.2, 0.35, 0.5, 0.65, 0.8, 0.9, 0.95, 0.98]
+    frames = [((0.0, 0.0), 1.0, 0.3), ((12.5, -7.0), 3.0, 2.0), ((-100.0, 250.0), 0.02, 5.5)]
+    ref_area = {}
+    with warnings.catch_warnings():
+        warnings.simplefilter("ignore")
+        for (cx, cy), r, a0 in frames:
+            for deg in spans:
+                th = math.radians(deg)
+                for direction in (1.0, -1.0):
+                    for f in fracs:
+                        cases += 1
+                        pts = rnp.array([[cx + r * math.cos(a0 + direction * th * t), cy + r * math.sin(a0 + direction * th * t)] for t in (0.0, f, 1.0)])
+                        tag = "span=%d frac=%.2f dir=%+d r=%g" % (deg, f, direction, r)
+                        try:
+                            info = arcmod.arc_center(pts)
+                            if abs(float(info.span) - th) > 1e-7:
+                                fail("arc_center:span-depends-on-the-middle-point", "%s: span %.9f want %.9f" % (tag, float(info.span), th))
+                                continue
+                            if abs(float(info.radius) - r) > 1e-7 * max(1.0, r) or float(rnp.abs(rnp.asarray(info.center)[:2] - [cx, cy]).max()) > 1e-6 * max(1.0, abs(cx), abs(cy)):
+                                fail("arc_center:centre-or-radius-wrong", tag)
+                            d = arcmod.discretize_arc(pts, scale=r)
+                            rad = rnp.linalg.norm(d - [cx, cy], axis=1)
+                            if float(rnp.abs(rad - r).max()) > 1e-7 * max(1.0, r) or not rnp.allclose(d[0], pts[0], atol=1e-9 * max(1.0, abs(cx), abs(cy))) or not rnp.allclose(d[-1], pts[2], atol=1e-9 * max(1.0, abs(cx), abs(cy))):
+                                fail("discretize_arc:points-off-the-circle-or-wrong-ends", tag)
+                            # swept monotonically through exactly the span
+                            ang = rnp.unwrap(rnp.arctan2(d[:, 1] - cy, d[:, 0] - cx))
+                            sweep = rnp.diff(ang) * direction
+                            if sweep.min() < -1e-9 or abs(float(sweep.sum()) - th) > 1e-6:
+                                fail("discretize_arc:does-not-sweep-the-arc", "%s: swept %.6f" % (tag, float(sweep.sum())))
+                            e = Arc([0, 1, 2])
+                            if abs(float(e.length(pts)) - r * th) > 1e-6 * max(1.0, r * th):
+                                fail("Arc.length:not-radius-times-span", "%s: %.9f want %.9f" % (tag, float(e.length(pts)), r * th))
+                            # closed by its chord: the circle segment
+                            p = trimesh.path.Path2D(entities=[Arc([0, 1, 2]), Line([2, 0])], vertices=pts.copy(), process=False)
+                            want = 0.5 * r * r * (th - math.sin(th))
+                            ref = ref_area.setdefault((cx, cy, deg, direction), p.area)
+                            if abs(p.area - want) > 2e-2 * max(want, r * r * 1e-3) or abs(p.area - ref) > 1e-9 * max(ref, r * r * 1e-3) + 1e-13 * (cx * cx + cy * cy):
+                                fail("path:segment-area-depends-on-the-middle-point", "%s: area %.9g, same arc with another middle point %.9g, exact segment %.6g" % (tag, p.area, ref, want))
+                        except Exception as ex:  # noqa: BLE001
+                            fail("arc:raised %s" % type(ex).__name__, "%s: %s" % (tag, ex))
+    fails = sorted(cells.values(), key=lambda c: c["cell"])
+    r_ = common.result(cases, cases, fails, "%d spans x %d middle positions x 2 directions x 3 circles" % (len(spans), len(fracs)), exhaustive=True)
+    r_["failures"] = fails
+    return r_
